@@ -382,7 +382,8 @@ class Lifecycle:
                     self.waiting["onLeave"] = True
                 return self._exp(cb_must=["onLeave"], send_must=must, close_may=True,
                                  fail_pending=True)
-            if name in ("HELLO", "WELCOME", "CHALLENGE", "AUTHENTICATE"):
+            if name in ("HELLO", "WELCOME", "ABORT", "CHALLENGE", "AUTHENTICATE"):
+                # the five handshake messages are illegal once the session is established
                 return self._exp(**{"raise": "protocol"})
         return None       # not in the enumerated alphabet in this phase
 
